@@ -31,7 +31,7 @@ macro_rules! rt {
             $ctx.eval();
             $ctx.count(concat!("rt.", $name));
             $ctx.shape(&($name, $shape, $x.len().min(2), out.class()));
-            if !(eq == Some(true) && out.rem_is_suffix(&input, enc_len)) {
+            if !(eq == Some(true) && out.rem_is_suffix_strict(&input, enc_len)) {
                 let rule = if eq.is_none() { "rejected" } else if eq == Some(false) { "wrong-value" } else { "remainder-wrong" };
                 $ctx.violation(
                     format!("c13:{}:{}", $name, rule),
